@@ -20,6 +20,10 @@ type Config struct {
 	Clients int `json:"clients,omitempty"`
 	// MetaFull, MetaSmall (C11): the encrypting store's two compaction knobs
 	// for this run (0 = the shipped values 10000 and 100)
+	// ZipMax > 0 (C13): maximum zip size of every blobpacked store of the
+	// composition (the knob blobpacked's own tests use), so that a file at
+	// the packing threshold spans several zips
+	ZipMax    int `json:"zipMax,omitempty"`
 	MetaFull  int `json:"metaFull,omitempty"`
 	MetaSmall int `json:"metaSmall,omitempty"`
 	// Files: packable files (chunks, nested bytes schemas, file blob) appended
@@ -59,7 +63,7 @@ func (g *genState) leaf() *sim.Node {
 			}
 			return &sim.Node{Type: "memory", Name: g.name("m")}
 		case 4, 5:
-			return &sim.Node{Type: "files", Name: g.name("f")}
+			return &sim.Node{Type: "files", Name: g.name("f"), Gate: []int{0, 0, 0, 1, 3}[g.r.Intn(5)]}
 		case 6:
 			sizes := []int{1, 50, 300, 5000, 70000, 1 << 20}
 			return &sim.Node{Type: "diskpacked", Name: g.name("d"), MaxFileSize: sizes[g.r.Intn(len(sizes))]}
